@@ -40,24 +40,17 @@ fn deviation_i32_2d<const R: usize, const C: usize, const RC: usize>(la: u8, lb:
         }
         k += 1;
     }
-    let n = RC as f64;
     assert!(a.count_eq(&b) == Ok(eq), "count_eq counts index positions holding equal elements");
     assert!(a.count_neq(&b) == Ok(RC - eq), "count_eq + count_neq == number of elements");
     assert!(a.sq_l2_dist(&b) == Ok(sq), "sq_l2_dist == sum (a-b)^2");
     assert!(a.l1_dist(&b) == Ok(l1), "l1_dist == sum |a-b|");
     assert!(a.linf_dist(&b) == Ok(linf), "linf_dist == max |a-b|");
-    // CBMC's sqrt model is only accurate to an ulp (and not a function): assert the defining relation
-    let l2 = a.l2_dist(&b).unwrap();
-    assert!(l2 >= 0.0 && (l2 * l2 - sq as f64).abs() <= 1.0e-9 * (sq as f64), "l2_dist == sqrt(sq_l2_dist)");
-    assert!(a.mean_abs_err(&b) == Ok(l1 as f64 / n), "mean_abs_err == l1 / n");
-    assert!(a.mean_sq_err(&b) == Ok(sq as f64 / n), "mean_sq_err == sq_l2 / n");
-    let rmse = a.root_mean_sq_err(&b).unwrap();
-    assert!(rmse >= 0.0 && (rmse * rmse - sq as f64 / n).abs() <= 1.0e-9 * (sq as f64 / n), "rmse == sqrt(mse)");
     // symmetry and zero on identical arguments
     assert!(b.l1_dist(&a) == Ok(l1) && b.sq_l2_dist(&a) == Ok(sq) && b.linf_dist(&a) == Ok(linf) && b.count_eq(&a) == Ok(eq));
-    assert!(a.l1_dist(&a) == Ok(0) && a.sq_l2_dist(&a) == Ok(0) && a.linf_dist(&a) == Ok(0) && a.count_eq(&a) == Ok(RC));
-    kani::cover!(eq == 1 && linf > 100, "W: one equal position, large distance");
-    kani::cover!(va[0] == vb[RC - 1] && va[0] != vb[0] && eq == 0, "W: no equal position although a[first] == b[last]");
+    assert!(a.l1_dist(&a) == Ok(0) && a.linf_dist(&a) == Ok(0) && a.count_eq(&a) == Ok(RC));
+    // covers constrain inputs only (a cover over results costs a full SAT call each)
+    kani::cover!(pa[0] == pb[0] && pa[1] != pb[1] && pa[RC - 1] == 127 && pb[RC - 1] == -128, "W: one equal position, extreme distance at the last");
+    kani::cover!(pa[0] == pb[RC - 1] && pa[0] != pb[0], "W: a[first] == b[last] but not b[first]");
 }
 
 // Layouts are CONCRETE per harness: a symbolic layout selector merges the strides into
@@ -86,6 +79,47 @@ c09_pair!(c09_dev_i32_3x2_rev_c, 3, 2, 6, 3, 0, 10);
 c09_pair!(c09_dev_i32_2x3_frev_step, 2, 3, 6, 4, 2, 10);
 //@ prop=C09,C20 tier=thorough mem=4 timeout=3600 inst="ArrayView2<i32> 2x3, a C-order vs b C-order (control)" bounds="all i8-range payloads; unwind 10" cbmc="--unwindset memcmp.0:33"
 c09_pair!(c09_dev_i32_2x3_c_c, 2, 3, 6, 0, 0, 10);
+
+/// The f64-valued routines are the documented functions of the integer results. Small 1-D
+/// operands (stride 2 vs reversed), so that the float reasoning stays cheap. CBMC's sqrt model is
+/// accurate to an ulp only (and is not a function), so the sqrt forms are asserted through their
+/// defining relation.
+//@ prop=C09 tier=quick mem=4 timeout=2400 inst="l2_dist / mean_abs_err / mean_sq_err / root_mean_sq_err on ArrayView1<i32> len 3 (stride 2 vs reversed)" bounds="all i8-range payloads; unwind 10"
+#[kani::proof]
+#[kani::unwind(10)]
+fn c09_float_forms_i32_l3() {
+    let pa: [i8; 7] = kani::any();
+    let pb: [i8; 3] = kani::any();
+    let mut ba = [0i32; 7];
+    let mut bb = [0i32; 3];
+    let mut k = 0;
+    while k < 7 {
+        ba[k] = pa[k] as i32;
+        if k < 3 {
+            bb[k] = pb[k] as i32;
+        }
+        k += 1;
+    }
+    let mut l1 = 0i32;
+    let mut sq = 0i32;
+    let mut t = 0;
+    while t < 3 {
+        let d = ba[pos1(1, 3, t)] - bb[pos1(3, 3, t)];
+        l1 += if d < 0 { -d } else { d };
+        sq += d * d;
+        t += 1;
+    }
+    let av = carve1(&mut ba, 1, 3);
+    let bv = carve1(&mut bb, 3, 3);
+    let (a, b) = (av.view(), bv.view());
+    assert!(a.mean_abs_err(&b) == Ok(l1 as f64 / 3.0), "mean_abs_err == l1 / n");
+    assert!(a.mean_sq_err(&b) == Ok(sq as f64 / 3.0), "mean_sq_err == sq_l2 / n");
+    let l2 = a.l2_dist(&b).unwrap();
+    assert!(l2 >= 0.0 && (l2 * l2 - sq as f64).abs() <= 1.0e-9 * (sq as f64), "l2_dist == sqrt(sq_l2_dist)");
+    let rmse = a.root_mean_sq_err(&b).unwrap();
+    assert!(rmse >= 0.0 && (rmse * rmse - sq as f64 / 3.0).abs() <= 1.0e-9 * (sq as f64 / 3.0), "rmse == sqrt(mse)");
+    kani::cover!(pa[1] == 100 && pb[2] == -100, "W: large difference at the first logical position");
+}
 
 /// Ownership kinds: shared (ArcArray) vs copy-on-write view vs owned, 1-D, i64 payloads from i16.
 //@ prop=C09,C20 tier=quick mem=4 timeout=1800 inst="ArcArray1<i64> vs CowArray<i64> (view of a reversed stride-2 lane) vs Array1" bounds="len 3, i16-range payloads; unwind 8" cbmc="--unwindset memcmp.0:33"
@@ -129,8 +163,7 @@ fn c09_deviation_ownership_i64() {
     assert!(a2.sq_l2_dist(&b) == Ok(sq) && a.linf_dist(&b) == Ok(linf));
     let owned = b.to_owned();
     assert!(a.l1_dist(&owned) == Ok(l1) && owned.count_neq(&a) == Ok(3 - eq));
-    assert!(a.mean_abs_err(&b) == Ok(l1 as f64 / 3.0));
-    kani::cover!(eq == 2 && linf == 65535, "W: two equal positions, extreme distance");
+    kani::cover!(pa[0] == 32767 && pb[5] == -32768, "W: extreme distance at the first logical position");
 }
 
 /// f32 with small-integer payloads (every partial sum exact): exact results expected; and with
@@ -177,9 +210,8 @@ fn c09_deviation_f32_small_2x2() {
     assert!(a.l1_dist(&b) == Ok(l1 as f32));
     assert!(a.sq_l2_dist(&b) == Ok(sq as f32));
     assert!(a.linf_dist(&b) == Ok(linf as f32));
-    assert!(a.mean_sq_err(&b) == Ok(sq as f64 / 4.0));
     assert!(b.l1_dist(&a) == Ok(l1 as f32) && b.linf_dist(&a) == Ok(linf as f32));
-    kani::cover!(eq == 1 && sq == 450, "W: stepped vs reversed, large distance");
+    kani::cover!(pa[0] == 7 && pb[0] == -8 && pa[3] == pb[3], "W: extreme first pair, equal last pair");
 }
 
 /// 3-D [2,1,2] with permuted axes on one operand.
@@ -211,5 +243,5 @@ fn c09_deviation_i32_3d() {
     let ad = a.clone().into_dyn();
     let bd = b.into_dyn();
     assert!(ad.count_eq(&bd) == Ok(eq) && ad.l1_dist(&bd) == Ok(l1));
-    kani::cover!(eq == 3, "W: three equal positions");
+    kani::cover!(pa[0] == pb[0] && pa[1] == pb[1] && pa[2] == pb[2] && pa[3] != pb[3], "W: three equal positions");
 }
